@@ -57,7 +57,9 @@ def run(ctx):
                 steps.append({'k': 'Clear', 's': s})
             else:
                 n = rng.randint(0, 3)
-                es = [[[448, rng.choice(vals[1:])]] + ([[447, rng.choice(vals[1:])]] if rng.random() < 0.6 else []) for _ in range(n)]
+                # (an entry may also carry a field that is not in the group's template: it is set, so it is written)
+                es = [[[448, rng.choice(vals[1:])]] + ([[447, rng.choice(vals[1:])]] if rng.random() < 0.6 else [])
+                      + ([[9998, rng.choice(vals[1:4])]] if rng.random() < 0.25 else []) for _ in range(n)]
                 steps.append({'k': 'SetGroup', 's': 'b', 'tag': 453, 'es': es})
         scripts.append({'id': 'w%d' % k, 'steps': steps})
     sp = os.path.join(ctx.scratch, 'scripts.ndjson')
